@@ -77,7 +77,12 @@ def inline_maps(ctx, facts, cand, rule='inline-enum-roundtrip'):
         if not name.startswith(module) or name not in facts.fn_index:
             return False
         sig = facts.fn_index[name][0][8] if len(facts.fn_index[name][0]) > 8 else ()
-        return any(D in t or any(P in t for P in Ps) for t in sig)
+        if not any(D in t or any(P in t for P in Ps) for t in sig):
+            return False
+        r = facts.fn(name)
+        # small private conversion helpers only: inlining the operator's own large methods (which also mention the enum) buys nothing
+        # (and plain getters such as `pub fn format(&self) -> &ExplainFormat`)
+        return r is not None and r['argc'] <= 2 and len(r['bb']) <= 60 and (not r.get('pub') or (r['argc'] == 1 and len(r['bb']) <= 12))
     # encoder: D -> set of P variants observed
     encmap = {}
     for v in enum_domain(facts, D):
